@@ -705,6 +705,16 @@ def compile_program(march, lang, src, opt):
         return '%s: %s' % (type(ex).__name__, str(ex)[:80])
     finally:
         logging.disable(logging.NOTSET)
+        # the allocator memoises q()/common_reg_class() with lru_cache on methods, which keeps every
+        # allocator (and its last frame and interference graph) alive: drop those caches between programs
+        try:
+            from ppci.codegen.registerallocator import GraphColoringRegisterAllocator as _G
+            for nm in ('q', 'common_reg_class'):
+                f = getattr(_G, nm, None)
+                if hasattr(f, 'cache_clear'):
+                    f.cache_clear()
+        except Exception:   # noqa: BLE001
+            pass
 
 
 # ===================================================================== frame -> Coq literal
